@@ -38,6 +38,8 @@ func c13Trees(M string) []string {
 		fmt.Sprintf("touch %[1]s/.hidden;mkdir %[1]s/.hd;touch %[1]s/.hd/.x;mkfifo %[1]s/fifo;mksock %[1]s/sock;symlink %[1]s/loopb %[1]s/loopa;symlink %[1]s/loopa %[1]s/loopb;symlink /etc/passwd %[1]s/tohost;exit 0", M),
 		fmt.Sprintf("mkdir %[1]s/locked;touch %[1]s/locked/in;mkdir %[1]s/locked/sub;touch %[1]s/locked/sub/deep;chmod %[1]s/locked/sub 0;chmod %[1]s/locked 0;touch %[1]s/ro;chmod %[1]s/ro 0;exit 0", M),
 		fmt.Sprintf("writefile %[1]s/secret topsecret;sys 86 s:%[1]s/secret s:%[1]s/hardlink;exit 0", M),
+		// links that lead nowhere at the time of the Reset: dangling, chains ending in nothing, links into the other writable mounts
+		fmt.Sprintf("symlink /nonexistent/SECRET %[1]s/dangling;symlink %[1]s/never-existed %[1]s/.dangle;touch %[1]s/file;symlink /w/file %[1]s/tow;symlink /tmp/file %[1]s/totmp;symlink %[1]s/dl2 %[1]s/dl1;symlink %[1]s/dl3 %[1]s/dl2;mkdir %[1]s/dd;symlink /nonexistent %[1]s/dd/inner;exit 0", M),
 		// more entries directly under the mount root than any one directory read returns
 		fmt.Sprintf("touchmany %[1]s 5000;mkdir %[1]s/sub;touchmany %[1]s/sub 3000;exit 0", M),
 	}
@@ -56,8 +58,8 @@ func listDir(p string) []string {
 }
 
 func runC13(res *Result, d *Driver, tier string, seed uint64) {
-	res.Rule = "part A: container histories: hostile probe programs build trees in every writable mount (40-deep paths, 200 entries, 5000 entries directly under the mount root plus 3000 in a sub-directory, hidden names, FIFOs, sockets, symlink loops, links to host paths, hard links, 000-mode directories and files), then Reset, then the host lists the mounts through /proc/<init>/root and a following tenant program lists them from inside: nothing may remain (default mount table and a custom table with an extra tmpfs and a read-only bind); " +
-		"part B: memfd.DupToMemfd with sizes 0,1,4095,4096,4097,1 MiB(+64 MiB thorough) of random bytes and readers that return data together with io.EOF / one byte at a time / 7-byte chunks / interleaved (0,nil) reads: content hash, offset 0, F_GET_SEALS, and every modifying operation attempted through the descriptor, through /proc/self/fd/N, and by a program exec'd from it. non-trivial = every case; distinct = (mount table, tree script) / (size, attack)."
+	res.Rule = "part A: container histories: hostile probe programs build trees in every writable mount (40-deep paths, 200 entries, 5000 entries directly under the mount root plus 3000 in a sub-directory, hidden names, FIFOs, sockets, symlink loops, dangling links and chains, links into the other writable mounts, links to host paths, hard links, 000-mode directories and files), then Reset, then the host lists the mounts through /proc/<init>/root and a following tenant program lists them from inside: nothing may remain (default mount table and a custom table with an extra tmpfs and a read-only bind); " +
+		"part B: memfd.DupToMemfd with sizes 0,1,4095,4096,4097,1 MiB(+64 MiB thorough) of random bytes and readers that return data together with io.EOF / one byte at a time / 7-byte chunks / interleaved (0,nil) reads, files read from offsets 0,1,4,size/2,size-1,size, procfs/sysfs files whose st_size differs from their content: content hash, offset 0, F_GET_SEALS, and every modifying operation attempted through the descriptor, through /proc/self/fd/N, and by a program exec'd from it. non-trivial = every case; distinct = (mount table, tree script) / (size, attack)."
 	rng := NewRng(seed, "C13", 1)
 	tables := []struct {
 		name   string
@@ -210,6 +212,61 @@ func runC13(res *Result, d *Driver, tier string, seed uint64) {
 			got, _ := io.ReadAll(f)
 			if !bytes.Equal(got, data) {
 				res.Mismatch(Mismatch{Kind: "oracle", What: "sealed in-memory executable contains exactly the supplied bytes (C13_sealed)", Input: fmt.Sprintf("reader %s, %d bytes", kind, sz), Impl: fmt.Sprintf("memfd holds %d bytes, equal prefix %v", len(got), bytes.HasPrefix(data, got)), Oracle: "violates"})
+			}
+			f.Close()
+		}
+	}
+	// readers that are files: read from the start, from an offset, at the end; files whose st_size says nothing about their content
+	{
+		tf, _ := os.CreateTemp("", "verif-c13-src-")
+		defer os.Remove(tf.Name())
+		for _, sz := range []int{0, 1, 100, 4096, 70000} {
+			data := make([]byte, sz)
+			for i := range data {
+				data[i] = byte(rng.Next())
+			}
+			tf.Truncate(0)
+			tf.WriteAt(data, 0)
+			for _, off := range []int{0, 1, 4, sz / 2, sz - 1, sz} {
+				if off < 0 || off > sz || (off > 0 && off == sz/2 && sz < 4) {
+					continue
+				}
+				tf.Seek(int64(off), io.SeekStart)
+				f, err := memfd.DupToMemfd("verif", tf)
+				res.Case(fmt.Sprintf("memfd file-reader %d@%d", sz, off), true, "memfd-file-reader")
+				res.Traces++
+				if err != nil {
+					res.Mismatch(Mismatch{Kind: "oracle", What: "DupToMemfd fails on a file reader (C13_sealed)", Input: fmt.Sprintf("*os.File of %d bytes positioned at %d", sz, off), Impl: err.Error(), Oracle: "violates"})
+					continue
+				}
+				got, _ := io.ReadAll(f)
+				if !bytes.Equal(got, data[off:]) {
+					res.Mismatch(Mismatch{Kind: "oracle", What: "sealed in-memory executable contains exactly the supplied bytes (C13_sealed)", Input: fmt.Sprintf("*os.File of %d bytes positioned at %d (supplies %d bytes)", sz, off, sz-off), Impl: fmt.Sprintf("memfd holds %d bytes, supplied bytes are a prefix: %v", len(got), bytes.HasPrefix(got, data[off:])), Oracle: "violates"})
+				}
+				f.Close()
+			}
+		}
+		tf.Close()
+		for _, path := range []string{"/proc/self/status", "/proc/version", "/sys/kernel/ostype", "/sys/devices/system/cpu/online", "/sys/kernel/mm/transparent_hugepage/enabled"} {
+			want, err := os.ReadFile(path)
+			if err != nil {
+				continue
+			}
+			sf, err := os.Open(path)
+			if err != nil {
+				continue
+			}
+			f, err := memfd.DupToMemfd("verif", sf)
+			sf.Close()
+			res.Case("memfd file-reader "+path, true, "memfd-pseudo-file")
+			res.Traces++
+			if err != nil {
+				res.Mismatch(Mismatch{Kind: "oracle", What: "DupToMemfd fails on a file reader (C13_sealed)", Input: path, Impl: err.Error(), Oracle: "violates"})
+				continue
+			}
+			got, _ := io.ReadAll(f)
+			if path != "/proc/self/status" && !bytes.Equal(got, want) || len(got) == 0 {
+				res.Mismatch(Mismatch{Kind: "oracle", What: "sealed in-memory executable contains exactly the supplied bytes (C13_sealed)", Input: fmt.Sprintf("*os.File %s (content %d bytes, st_size says otherwise)", path, len(want)), Impl: fmt.Sprintf("memfd holds %d bytes", len(got)), Oracle: "violates"})
 			}
 			f.Close()
 		}
